@@ -317,9 +317,10 @@ fn exhaustive_snapshot_populations(name: &str, ns: &'static [u32]) -> Part<Case>
 /// A side of EXACTLY `n` occupied price levels (1 or 2 orders each) and one aggressor that sweeps all of them,
 /// all but one, or half of them in a single match: many fills from one incoming order, every level count 1..=160.
 fn exhaustive_level_counts(name: &str) -> Part<Case> {
-    const MAXN: u64 = 160;
+    // every count 1..=160, then the neighbourhoods of 2^8, 2^9 and 2^10 occupied levels
+    let counts: Vec<u32> = (1..=160u32).chain([255, 256, 257, 511, 512, 513, 1_023, 1_024, 1_025]).collect();
     const KINDS: u64 = 5;
-    let total = MAXN * 2 * KINDS;
+    let total = counts.len() as u64 * 2 * KINDS;
     Part {
         name: name.to_string(),
         kind: PartKind::Exhaustive {
@@ -328,8 +329,8 @@ fn exhaustive_level_counts(name: &str) -> Part<Case> {
                 let kind = i % KINDS;
                 let i = i / KINDS;
                 let agg_bid = i % 2 == 0;
-                let n = (i / 2) as u32 + 1;
-                let base = 400u32;
+                let n = counts[(i / 2) as usize];
+                let base = 4_000u32;
                 // passive levels walk away from the touch: asks at base+1.., bids at base-1..
                 let level = |k: u32| if agg_bid { (base + 1 + k) * TICK } else { (base - 1 - k) * TICK };
                 let mut ops = vec![];
@@ -357,7 +358,7 @@ fn exhaustive_level_counts(name: &str) -> Part<Case> {
                 });
                 Some(Case::Book(BookCase { tick: TICK, levels: 10, trading: true, t0: 0, tie: false, ops, drain: true, quiet: 0, bulk: vec![] }))
             }),
-            description: "every number n in 1..=160 of occupied price levels on the passive side (1 or 2 orders per level) x aggressor side x 5 aggressors (market for everything, limit through the last level for more than everything, limit for all but one unit, market for the nearer half, limit for everything priced at the middle level), LEVELS 10, then the drain probe".to_string(),
+            description: "every number n in 1..=160 and in {255, 256, 257, 511, 512, 513, 1023, 1024, 1025} of occupied price levels on the passive side (1 or 2 orders per level) x aggressor side x 5 aggressors (market for everything, limit through the last level for more than everything, limit for all but one unit, market for the nearer half, limit for everything priced at the middle level), LEVELS 10, then the drain probe".to_string(),
         },
     }
 }
